@@ -1760,6 +1760,16 @@ func (t *tScreen) parseFunctionKey(buf *bytes.Buffer, evs *[]Event) (bool, bool)
 	return partial, false
 }
 
+// isReplacementChar reports whether b is the encoding of U+FFFD in the
+// screen's character set (as opposed to bytes that merely decode to it
+// because they are invalid).
+func (t *tScreen) isReplacementChar(b []byte) bool {
+	enc := make([]byte, 8)
+	t.encoder.Reset()
+	n, _, err := t.encoder.Transform(enc, []byte("\ufffd"), true)
+	return err == nil && n > 1 && bytes.Equal(enc[:n], b)
+}
+
 func (t *tScreen) parseRune(buf *bytes.Buffer, evs *[]Event) (bool, bool) {
 	b := buf.Bytes()
 	if b[0] >= ' ' && b[0] <= 0x7F {
@@ -1806,6 +1816,15 @@ func (t *tScreen) parseRune(buf *bytes.Buffer, evs *[]Event) (bool, bool) {
 				// an invalid byte, and the decoder went on to what
 				// follows it: only the invalid byte is dropped
 				nIn = 1
+			} else if t.isReplacementChar(b[:nIn]) {
+				// U+FFFD itself, typed or pasted: a character like
+				// any other, not the mark of a decoding failure
+				mod := ModNone
+				if t.escaped {
+					mod = ModAlt
+					t.escaped = false
+				}
+				*evs = append(*evs, NewEventKey(KeyRune, r, mod))
 			}
 			for nIn > 0 {
 				_, _ = buf.ReadByte()
